@@ -107,6 +107,9 @@ def gen(rng, tier, idx):
     # the walk starts after a seeded fraction of the session has been stepped through, so that rewinds also
     # happen deep inside long sessions (near the operation limit, in the last section of a spend, on large items)
     scn["prefix_permille"] = rng.weighted([(4, 0), (3, rng.below(1001)), (2, rng.range(700, 1000)), (1, 1000)])
+    if rng.chance(15):
+        # ... or at an absolute depth around a round number (where a sized buffer or counter would wrap)
+        scn["prefix_steps"] = rng.choice([31, 32, 33, 63, 64, 127, 128, 199, 200, 201, 255, 256, 257, 511, 512, 999, 1000, 1001, 1023, 1024, 1025]) + rng.range(-1, 2)
     scn["regime"] = "clean" if rng.chance(80) else "fault"
     # the black-box observers quadruple the number of delivered lines; half of the cases rely on the white-box probe alone
     scn["observe"] = bool(scn.get("observe", True)) and rng.chance(50)
@@ -135,6 +138,8 @@ def plan(scn, ref, extra_tail=True):
     items = [["sync"]]
     net = 0
     pre = (L * scn.get("prefix_permille", 0)) // 1000
+    if scn.get("prefix_steps") is not None and 0 <= scn["prefix_steps"] <= L:
+        pre = scn["prefix_steps"]
     for _ in range(pre):
         items.append(["step"])
         net += 1
